@@ -19,7 +19,12 @@ use wgsl_to_wgpu::verif_hooks::{self, process::ChildIo, process::SpawnSpec, Back
 #[derive(Debug, Clone, Serialize, Deserialize, PartialEq, Eq)]
 pub struct Case {
     pub job: Job,
+    /// What the first formatter process of the call does.
     pub proc: ProcPlan,
+    /// What the second, third, ... formatter processes of the same call do (code that retries);
+    /// the last entry repeats. Empty: every process follows `proc`.
+    #[serde(default)]
+    pub later: Vec<ProcPlan>,
 }
 
 #[derive(Debug, Clone)]
@@ -248,6 +253,7 @@ pub fn reference_for(cache: &RefCache, job: &Job) -> Option<RefProgram> {
 
 struct C19Backend {
     plan: ProcPlan,
+    later: Vec<ProcPlan>,
     reference: Arc<String>,
     children: Mutex<Vec<Arc<SimChild>>>,
     programs: Mutex<Vec<String>>,
@@ -260,12 +266,18 @@ impl Backend for C19Backend {
     }
 
     fn spawn(&self, spec: &SpawnSpec) -> Option<std::io::Result<Arc<dyn ChildIo>>> {
-        self.programs
-            .lock()
-            .unwrap()
-            .push(spec.program.to_string_lossy().into_owned());
+        let nth = {
+            let mut programs = self.programs.lock().unwrap();
+            programs.push(spec.program.to_string_lossy().into_owned());
+            programs.len() - 1
+        };
+        let plan = if nth == 0 || self.later.is_empty() {
+            &self.plan
+        } else {
+            &self.later[(nth - 1).min(self.later.len() - 1)]
+        };
         Some(
-            procsim::spawn(&self.plan, spec, self.reference.clone(), None).map(|child| {
+            procsim::spawn(plan, spec, self.reference.clone(), None).map(|child| {
                 self.children.lock().unwrap().push(child.clone());
                 child as Arc<dyn ChildIo>
             }),
@@ -387,8 +399,21 @@ pub fn judge(
 }
 
 /// Execute one case on a fresh thread (own entropy stream, own backend).
+pub fn classify_case(case: &Case) -> (bool, Vec<&'static str>) {
+    let (mut eligible, mut kinds) = classify(&case.proc);
+    for (i, plan) in case.later.iter().enumerate() {
+        let (e, k) = classify(plan);
+        eligible &= e;
+        if i == 0 {
+            kinds.push("then_on_retry");
+            kinds.extend(k);
+        }
+    }
+    (eligible, kinds)
+}
+
 pub fn run_case(case: &Case, reference: Option<&RefProgram>, want_log: bool) -> Verdict {
-    let (eligible, kinds) = classify(&case.proc);
+    let (eligible, kinds) = classify_case(case);
     let Some(reference) = reference else {
         return Verdict {
             eligible,
@@ -415,6 +440,7 @@ pub fn run_case(case: &Case, reference: Option<&RefProgram>, want_log: bool) -> 
             crate::seams::set_thread_entropy(Some(entropy));
             let backend = Arc::new(C19Backend {
                 plan: case.proc.clone(),
+                later: case.later.clone(),
                 reference: reference.text.clone(),
                 children: Mutex::new(Vec::new()),
                 programs: Mutex::new(Vec::new()),
@@ -738,6 +764,24 @@ pub fn gen_case(rng: &mut Rng) -> Case {
             }
         },
     }
+    // Code that retries gets a second formatter process: usually a healthy one, sometimes one
+    // that prints nothing, sometimes another failure.
+    let mut later = Vec::new();
+    if rng.chance(300) {
+        let mut second = ProcPlan::well_behaved();
+        second.stdin_cap = proc.stdin_cap;
+        second.stdout_cap = proc.stdout_cap;
+        second.chunk = proc.chunk;
+        second.op_cost = proc.op_cost;
+        second.parent_costs = proc.parent_costs.clone();
+        match rng.below(10) {
+            0..=5 => {}
+            6..=7 => second.script = vec![Op::ReadToEof, Op::Exit(0)],
+            8 => second.script = vec![Op::ReadToEof, Op::EmitRef(rng.range(1, 999) as u32), Op::Flush, Op::Kill(libc::SIGKILL)],
+            _ => second.script = vec![Op::Exit(1)],
+        }
+        later.push(second);
+    }
     Case {
         job: Job {
             shader,
@@ -745,6 +789,7 @@ pub fn gen_case(rng: &mut Rng) -> Case {
             options,
         },
         proc,
+        later,
     }
 }
 
@@ -820,7 +865,15 @@ pub fn systematic_cases() -> Vec<Case> {
                     let mut options = Opts::plain();
                     options.rustfmt = true;
                     options.bytemuck_host = true;
+                    let retry_variant = cap == 64 && *op_cost == 3;
                     out.push(Case {
+                        later: if retry_variant {
+                            // the interleaved small-capacity variant doubles as the "flaky formatter"
+                            // block: whatever the first process did, a second one would be healthy
+                            vec![ProcPlan::well_behaved()]
+                        } else {
+                            vec![]
+                        },
                         job: Job {
                             shader: shader.clone(),
                             include_path: None,
@@ -897,6 +950,19 @@ pub fn minimise(case: &Case, class: &str, cache: &RefCache) -> (Case, u32) {
         cand.job.options.rustfmt = true;
         cand.job.include_path = None;
         try_accept(cand, &mut best);
+    }
+
+    {
+        let mut cand = best.clone();
+        cand.later.clear();
+        try_accept(cand, &mut best);
+        for script in [vec![Op::ReadToEof, Op::Format, Op::Flush, Op::ExitAuto], vec![Op::ReadToEof, Op::Exit(0)]] {
+            if !best.later.is_empty() {
+                let mut cand = best.clone();
+                cand.later = vec![ProcPlan { script, ..ProcPlan::well_behaved() }];
+                try_accept(cand, &mut best);
+            }
+        }
     }
 
     // 2. script: drop ops, then simplify arguments, to a fixpoint
@@ -991,43 +1057,132 @@ fn real_rustfmt_block(cache: &RefCache, limit_opts: usize) -> RealFmtResult {
         include_path: None,
         options: Opts::plain(),
     });
-    for job in jobs {
-        let Some(reference) = reference_for(cache, &job) else {
-            continue;
-        };
-        let source = job.shader.source();
-        let mut options = job.options;
-        options.rustfmt = true;
-        // No backend installed on this thread: the seam passes through to std::process.
-        let outcome = corpus::run_job(&source, job.include_path.as_deref(), options);
-        result.cases += 1;
-        match outcome {
-            Outcome::Ok { text } => match tokens::compare(&reference.tokens, &text) {
-                tokens::Cmp::Equal => {
-                    if text.contains("\n    ") {
-                        result.formatted += 1;
-                    }
+    // Each job runs in its own process with a wall-clock limit: with the real formatter a
+    // deadlock of the code under test is a real deadlock.
+    let exe = std::env::current_exe().expect("current_exe");
+    let results: Mutex<Vec<(Job, String, String, bool)>> = Mutex::new(Vec::new());
+    let next = AtomicU64::new(0);
+    std::thread::scope(|scope| {
+        for _ in 0..crate::workers().min(8) {
+            scope.spawn(|| loop {
+                let i = next.fetch_add(1, Ordering::Relaxed) as usize;
+                if i >= jobs.len() {
+                    break;
                 }
-                other => result.failures.push((
-                    job.clone(),
-                    Failure {
-                        class: format!("real_rustfmt:result:{}", other.class()),
-                        detail: format!("{other:?}"),
-                        location: None,
-                    },
-                )),
-            },
-            other => result.failures.push((
-                job.clone(),
+                let job = &jobs[i];
+                if reference_for(cache, job).is_none() {
+                    continue;
+                }
+                let (class, detail, formatted) = real_rustfmt_job(&exe, job);
+                results.lock().unwrap().push((job.clone(), class, detail, formatted));
+            });
+        }
+    });
+    let mut results = results.into_inner().unwrap();
+    results.sort_by_key(|(j, _, _, _)| j.describe());
+    for (job, class, detail, formatted) in results {
+        result.cases += 1;
+        if class.starts_with("ok:") {
+            if formatted {
+                result.formatted += 1;
+            }
+        } else {
+            result.failures.push((
+                job,
                 Failure {
-                    class: format!("real_rustfmt:{}", other.class()),
-                    detail: other.brief(),
+                    class: format!("real_rustfmt:{class}"),
+                    detail,
                     location: None,
                 },
-            )),
+            ));
         }
     }
     result
+}
+
+const REAL_RUSTFMT_TIMEOUT: std::time::Duration = std::time::Duration::from_secs(90);
+
+/// Run one fault-free job against the real rustfmt in a fresh process; (class, detail, formatted).
+fn real_rustfmt_job(exe: &std::path::Path, job: &Job) -> (String, String, bool) {
+    use std::io::Write as _;
+    use std::os::unix::process::CommandExt;
+    let mut child = match std::process::Command::new(exe)
+        .arg("c19-real")
+        .stdin(std::process::Stdio::piped())
+        .stdout(std::process::Stdio::piped())
+        .stderr(std::process::Stdio::null())
+        .process_group(0)
+        .spawn()
+    {
+        Ok(c) => c,
+        Err(e) => return ("harness".into(), format!("spawn: {e}"), false),
+    };
+    let pgid = child.id() as i32;
+    if let Some(mut stdin) = child.stdin.take() {
+        let _ = stdin.write_all(serde_json::to_string(job).unwrap().as_bytes());
+    }
+    let start = std::time::Instant::now();
+    loop {
+        match child.try_wait() {
+            Ok(Some(_)) => break,
+            Ok(None) if start.elapsed() > REAL_RUSTFMT_TIMEOUT => {
+                unsafe {
+                    libc::kill(-pgid, libc::SIGKILL);
+                }
+                let _ = child.wait();
+                return (
+                    "hang:real_rustfmt_timeout".into(),
+                    format!("no result after {} s with the real rustfmt (process group killed)", REAL_RUSTFMT_TIMEOUT.as_secs()),
+                    false,
+                );
+            }
+            Ok(None) => std::thread::sleep(std::time::Duration::from_millis(5)),
+            Err(e) => return ("harness".into(), format!("wait: {e}"), false),
+        }
+    }
+    let mut out = String::new();
+    if let Some(mut stdout) = child.stdout.take() {
+        use std::io::Read as _;
+        let _ = stdout.read_to_string(&mut out);
+    }
+    match serde_json::from_str::<serde_json::Value>(&out) {
+        Ok(v) => (
+            v["class"].as_str().unwrap_or("harness").to_string(),
+            v["detail"].as_str().unwrap_or("").to_string(),
+            v["formatted"].as_bool().unwrap_or(false),
+        ),
+        Err(e) => ("harness".into(), format!("c19-real output: {e}: {out}"), false),
+    }
+}
+
+/// `wgsl-sim c19-real`: one job with `rustfmt: true`, no backend installed (passthrough seam).
+pub fn real_main() -> i32 {
+    use std::io::Read as _;
+    let mut text = String::new();
+    if std::io::stdin().read_to_string(&mut text).is_err() {
+        return 2;
+    }
+    let job: Job = match serde_json::from_str(&text) {
+        Ok(j) => j,
+        Err(_) => return 2,
+    };
+    let cache = new_ref_cache();
+    let Some(reference) = reference_for(&cache, &job) else {
+        println!("{}", json!({"class": "ok:skipped", "detail": "", "formatted": false}));
+        return 0;
+    };
+    let mut options = job.options;
+    options.rustfmt = true;
+    let result = std::panic::catch_unwind(std::panic::AssertUnwindSafe(|| {
+        corpus::run_job(&job.shader.source(), job.include_path.as_deref(), options)
+    }));
+    let formatted = matches!(&result, Ok(Outcome::Ok { text }) if text.contains("\n    "));
+    let (class, failure) = judge(result, &reference, None);
+    println!(
+        "{}",
+        json!({"class": class, "detail": failure.map(|f| f.detail).unwrap_or_default(), "formatted": formatted})
+    );
+    0
 }
 
 // ---------------------------------------------------------------------------------------------
@@ -1186,8 +1341,12 @@ pub fn case_for_run(seed: u64, index: u64) -> Case {
     gen_case(&mut rng)
 }
 
+/// Once this many runs of a batch have failed the verdict is settled; the rest is skipped.
+const FAILING_RUNS_ENOUGH: u64 = 150;
+
 fn run_batch(cases: &(dyn Fn(u64) -> Case + Sync), n: u64, cache: &RefCache) -> Tally {
     let next = AtomicU64::new(0);
+    let failing = AtomicU64::new(0);
     let total = Mutex::new(Tally::new());
     std::thread::scope(|scope| {
         for _ in 0..crate::workers() {
@@ -1195,13 +1354,16 @@ fn run_batch(cases: &(dyn Fn(u64) -> Case + Sync), n: u64, cache: &RefCache) -> 
                 let mut local = Tally::new();
                 loop {
                     let i = next.fetch_add(1, Ordering::Relaxed);
-                    if i >= n {
+                    if i >= n || failing.load(Ordering::Relaxed) >= FAILING_RUNS_ENOUGH {
                         break;
                     }
                     let case = cases(i);
                     let reference = reference_for(cache, &case.job);
                     let ref_len = reference.as_ref().map(|r| r.text.len()).unwrap_or(0);
                     let v = run_case(&case, reference.as_ref(), false);
+                    if v.failure.as_ref().map(|f| !f.class.contains("semicolon")).unwrap_or(false) {
+                        failing.fetch_add(1, Ordering::Relaxed);
+                    }
                     local.record(i, &case, v, ref_len);
                 }
                 total.lock().unwrap().merge(local);
@@ -1215,7 +1377,7 @@ fn run_batch(cases: &(dyn Fn(u64) -> Case + Sync), n: u64, cache: &RefCache) -> 
 }
 
 fn trigger_of(case: &Case) -> String {
-    let (_, kinds) = classify(&case.proc);
+    let (_, kinds) = classify_case(case);
     kinds.join("+")
 }
 
@@ -1387,6 +1549,10 @@ pub fn main(tier: Tier) -> i32 {
     let mut known_hits = 0;
     let mut real_known_seen = HashSet::new();
     for (job, f) in &real.failures {
+        if f.class == "real_rustfmt:harness" {
+            eprintln!("HARNESS-ERROR real rustfmt block, {}: {}", job.describe(), f.detail);
+            return 2;
+        }
         // real rustfmt disagreeing is a fault-free violation; replay = the job itself
         if let Some(k) = known.lookup("C19", &f.class, "fault_free_real_rustfmt") {
             if real_known_seen.insert(f.class.clone()) {
@@ -1595,19 +1761,17 @@ pub fn replay(path: &str, doc: &serde_json::Value) -> i32 {
                 return 2;
             }
         };
-        let cache: RefCache = Mutex::new(HashMap::new());
-        let Some(reference) = reference_for(&cache, &job) else {
-            println!("no reference program: nothing to compare");
-            return 0;
-        };
-        let mut options = job.options;
-        options.rustfmt = true;
-        let outcome = corpus::run_job(&job.shader.source(), job.include_path.as_deref(), options);
-        let ok = matches!(&outcome, Outcome::Ok { text } if tokens::compare(&reference.tokens, text) == tokens::Cmp::Equal);
-        if ok {
-            println!("replay {path}: property holds (real rustfmt output is token-equal)");
+        let exe = std::env::current_exe().expect("current_exe");
+        let (class, detail, _) = real_rustfmt_job(&exe, &job);
+        if class == "harness" {
+            eprintln!("HARNESS-ERROR {detail}");
+            return 2;
+        }
+        if class.starts_with("ok:") {
+            println!("replay {path}: property holds with the real rustfmt ({class})");
             return 0;
         }
+        println!("real rustfmt: {class} {detail}");
         println!("REPLAY-EXACT class={}", doc["failure_class"].as_str().unwrap_or(""));
         println!("VIOLATION property=C19 replay={path}");
         return 1;
